@@ -2525,8 +2525,6 @@ def add_row_margin(
     pd.DataFrame
         DataFrame with an additional 'All' row containing the aggregated values.
     """
-    from pandas.core.reshape.util import cartesian_product
-
     data = data.sort_index()
     index = data.index
     if index.nlevels == 1:
@@ -2538,7 +2536,12 @@ def add_row_margin(
         levels = all_levels
 
     new_levels = [index.levels[lvl].tolist() + ["All"] for lvl in all_levels]
-    new_codes = cartesian_product([np.arange(len(lvl)) for lvl in new_levels])
+    new_codes = [
+        codes.ravel()
+        for codes in np.meshgrid(
+            *[np.arange(len(lvl)) for lvl in new_levels], indexing="ij"
+        )
+    ]
     new_index = pd.MultiIndex(codes=new_codes, levels=new_levels, names=index.names)
     out = data.reindex(new_index, fill_value=0)
     keep = pd.Series(False, index=out.index)
